@@ -82,6 +82,8 @@ func main() {
 		solver    = flag.String("solver", "z3-new", "z3-new (5.1.0) | z3 (4.8.12) | cvc5")
 		timeoutMs = flag.Int("timeout-ms", 2000, "per-query timeout of the incremental solver before the one-shot fallback (60 s)")
 		intMode   = flag.Bool("int", false, "integer arithmetic mode")
+		fpReal    = flag.Bool("fp-real", false, "float64 as real numbers with relative rounding error (sound over-approximation; only unsat is meaningful)")
+		fallbackS = flag.Int("fallback-s", 60, "timeout of the one-shot fallback solver (seconds)")
 		samples   = flag.Int("samples", 4, "number of path samples to keep")
 		budget    = flag.Duration("budget", 0, "wall-clock budget (0 = none)")
 		trace     = flag.Bool("trace", false, "trace instructions")
@@ -99,7 +101,7 @@ func main() {
 	}
 	t0 := time.Now()
 	cfg := &Config{Harness: *harness, AllocCap: *allocCap, MaxSteps: *maxSteps, Unwind: *unwind, MaxPaths: *maxPaths,
-		Workers: *workers, SolverKind: *solver, TimeoutMs: *timeoutMs, IntMode: *intMode, Samples: *samples, Trace: *trace,
+		Workers: *workers, SolverKind: *solver, TimeoutMs: *timeoutMs, IntMode: *intMode, FPReal: *fpReal, FallbackS: *fallbackS, Samples: *samples, Trace: *trace,
 		SolverLog: *slog, OnePerLab: !*allPerLab}
 	cfg.Params = map[string]int{}
 	for _, kv := range strings.Split(*params, ",") {
@@ -109,6 +111,7 @@ func main() {
 			cfg.Params[kv[:i]] = v
 		}
 	}
+	fbTimeoutDefault = *fallbackS
 	if *budget > 0 {
 		cfg.Deadline = t0.Add(*budget)
 	}
